@@ -107,6 +107,20 @@ def classify_hang(stacks):
     b = [g for g in gs if has(g, "spinner.(*Spinner).Start.func1", "output.(*baseCockpit).start.func1") and ("Mutex).Lock" in g)]
     if a and b:
         return "taskctl-deadlock:cockpit-lock-order"
+    # a goroutine of taskctl's own code blocked on a channel that was not created inside the simulated
+    # world (a package-level semaphore / queue): the bubble cannot go on while it waits for a goroutine
+    # the simulator holds. Recognised only when taskctl's function is the innermost non-runtime frame.
+    for g in gs:
+        head = g.split("\n", 1)[0]
+        if not re.match(r"goroutine \d+ \[(chan send|chan receive|select)(, \d+ minutes)?, synctest bubble \d+\]", head):
+            continue
+        for line in g.split("\n")[1:]:
+            if line.startswith("\t") or line.startswith("runtime.") or line.startswith("created by"):
+                continue
+            m = re.match(r"(github\.com/taskctl/taskctl/(pkg|internal)/[^\s(]+(\([^)]*\))?[^\s(]*)\(", line)
+            if m and "verifsim" not in line and "verifvsync" not in line:
+                return "taskctl-blocked:" + m.group(1)
+            break
     if "briandowns/spinner" in stacks and re.search(r"sync\.\(\*(RW)?Mutex\)\.(R?Lock)[^\n]*\n[^\n]*\n[^\n]*spinner\.\(\*Spinner\)", stacks):
         return "spinner-hazard"
     return "unknown"
@@ -155,7 +169,7 @@ class Batch:
                         self.results.append(r)
                 elif t == "done":
                     done = True
-                elif t == "watchdog" and classify_hang(r.get("stacks", "")).startswith("taskctl-deadlock"):
+                elif t == "watchdog" and classify_hang(r.get("stacks", "")).startswith(("taskctl-deadlock", "taskctl-blocked")):
                     with self.lock:
                         self.deadlocks.append({"kind": classify_hang(r["stacks"]), "index": r.get("index"), "seed": r.get("seed"), "stacks": r["stacks"]})
                 elif t == "watchdog" and classify_hang(r.get("stacks", "")) == "spinner-hazard":
@@ -610,6 +624,32 @@ def main():
             print("VIOLATION property=%s replay=%s" % (prop, path), flush=True)
             reported.append({"rule": rule, "replay": path, "msg": v["msg"], "count": len(unknown)})
             exit_code = 1
+
+        # C04: a launched stage blocked on a process-global channel while the others are in flight
+        blocked = [(b, d) for (b, d) in all_deadlocks if d["kind"].startswith("taskctl-blocked")]
+        all_deadlocks = [(b, d) for (b, d) in all_deadlocks if not d["kind"].startswith("taskctl-blocked")]
+        if blocked and prop == "C04":
+            b, d = sorted(blocked, key=lambda x: x[1]["index"])[0]
+            v = {"prop": prop, "rule": "blocked-on-global-channel", "msg": "a launched stage is blocked in %s on a channel shared by the whole process while the other stages are in flight: it does not start before one of them finishes (%d run(s))" % (d["kind"].split(":", 1)[1], len(blocked)), "seq": 0}
+            k = known_match(prop, v, known)
+            if k:
+                known_hits[k["id"]] = (k, known_hits.get(k["id"], (k, 0))[1] + len(blocked))
+            else:
+                vals, rc_, err_ = trace_crash(b, {"index": d["index"], "seed": d["seed"]}, scratch)
+                path = os.path.join(OUT, "replays", prop, "blocked-%d.json" % d["index"])
+                write_replay(path, {"engine": b.part["engine"], "property": prop, "profile": b.part["profile"], "tier": tier, "index": d["index"], "seed": d["seed"],
+                                    "choices": vals, "violation": v, "log_hash": "", "opts": b.part.get("opts", []), "expect": "hang", "hang_kind": d["kind"]})
+                recs, rc2, err2 = run_worker({"replay": path, "prop": prop, "watchdog_s": 10}, timeout=60)
+                again = [classify_hang(r.get("stacks", "")) for r in recs if r.get("type") == "watchdog"]
+                if again and again[0] == d["kind"]:
+                    print("violation: rule=%s %s" % (v["rule"], v["msg"]), flush=True)
+                    print("VIOLATION property=%s replay=%s" % (prop, path), flush=True)
+                    reported.append({"rule": v["rule"], "replay": path, "msg": v["msg"], "count": len(blocked)})
+                    exit_code = 1
+                else:
+                    harness_errors.append({"type": "non-reproducible-block", "index": d["index"], "got": again})
+        elif blocked:
+            harness_errors.append({"type": "blocked-on-global-channel", "note": "a goroutine of taskctl waits on a process-global channel held by goroutines the simulator parks; not a verdict for this property", "kind": blocked[0][1]["kind"], "index": blocked[0][1]["index"]})
 
         # deadlocks of the system under test (real-time hang whose stacks show a complete lock cycle)
         if all_deadlocks and prop in CRASH_PROPS:
